@@ -191,6 +191,18 @@ impl Prop for C07 {
         case.ops = gen_history(&mut r, &ho);
         // a final long silence so that every pending timeout is crossed
         case.ops.push(Op::Gap(r.range(100, 3000) as u32));
+        // bound the simulated time of one case (it is run two or three times, one of them ticking
+        // through every millisecond): once 150 s have accumulated, later long gaps are cut to 1 s.
+        // With something busy in every tick a longer history does not fit the per-run watchdog.
+        let mut total: u64 = 0;
+        for op in case.ops.iter_mut() {
+            if let Op::Gap(n) = op {
+                if total > 150_000 && *n > 1_000 {
+                    *n = 1_000;
+                }
+                total += *n as u64;
+            }
+        }
         case
     }
     fn check(&self, case: &Case, want_sample: bool) -> RunOut {
@@ -204,6 +216,7 @@ impl Prop for C07 {
             Ok(s) => s,
             Err(_) => return RunOut::skip("parser-rejected"),
         };
+        a.out_limit = 60_000;
         // final silence long enough for both runs to drain whatever is pending
         let tail = quiescence_bound(&case.cfg, &case.ops).min(70_000);
         let zch0 = kanata_state_machine::verif_seam::ZCH_EFFECTIVE_FORCED_RESETS.load(std::sync::atomic::Ordering::Relaxed);
@@ -214,6 +227,12 @@ impl Prop for C07 {
         let ta = std::mem::take(&mut a.trace);
         let pa = a.probes.clone();
         drop(a);
+        // a history that produces output in nearly every millisecond for minutes of simulated time
+        // (a repeating macro held down through the long gaps) costs more wall time than the per-run
+        // watchdog allows once it is run two more times: left to C02 / C08, counted here
+        if ta.outs.len() > 60_000 {
+            return RunOut::skip("more-than-60000-outputs");
+        }
         let mut b = match Stepper::new_filtered(&case.cfg, &case.files, Mode::Blocking) {
             Ok(s) => s,
             Err(_) => return RunOut::skip("parser-rejected"),
